@@ -5,12 +5,14 @@
    [run (init i m) ops] is the change cache started at initial sequence [i] with
    CachePendingSeqMaxNum = [m] after the operations [ops] (arrivals of document / principal / unused
    entries each with an adversarial "older than CachePendingSeqMaxWait" bit, unused ranges,
-   housekeeping runs, abandoning of the skipped list), in ANY order, with ANY duplication.
+   housekeeping runs, abandoning of the skipped list -- wholesale [Abandon] or element by element
+   [AbandonSome bits]: one adversarial "older than CacheSkippedSeqMaxWait" bit per element of the skip list --),
+   in ANY order, with ANY duplication.
    [covered ops s]: some operation of the list delivered sequence s or declared it unused.
    [feed_consistent ops]: two arrival events are the same event or concern disjoint sequence numbers
    (what the sequence allocator guarantees, C07).  [ops_wf i ops]: unused ranges are lo <= hi and do not
    straddle the initial sequence i. *)
-From SG Require Import Base.Prelude C08.SkippedSet C08.SeqBuffer C08.SeqBufferInv C08.SeqBufferCons C08.SeqBufferThms C08.ChanLayer C08.ChanLayerProofs.
+From SG Require Import Base.Prelude C08.SkippedSet C08.SeqBuffer C08.SeqBufferInv C08.SeqBufferCons C08.SeqBufferThms C08.ChanLayer C08.ChanLayerProofs C08.SeqBufferRecv C08.DocFeed C08.DocFeedProofs C08.DocCheck.
 Open Scope N_scope.
 
 (* exactly once, first half -- for every operation list whatsoever: no sequence is forwarded to the
@@ -133,3 +135,122 @@ Proof.
     repeat match goal with H : _ \/ _ |- _ => destruct H end; try contradiction; subst; cbn; auto; lia.
   - vm_compute. repeat split.
 Qed.
+
+
+(* ================= deepening round: DocChanged, partial abandonment, the two observations ================= *)
+
+(* Observation (a) -- the 'oldest pending < nextSequence' branch of _addPendingLogs does not delete what it
+   drops from receivedSeqs.  Harmless on EVERY feed: receivedSeqs is exactly the set of buffered single
+   sequences for every operation list (C08_seqbuf_received_exact without its two hypotheses) ... *)
+Theorem C08_seqbuf_received_exact_all_feeds : forall i m ops, let st := run (init i m) ops in
+  forall s, In s (received st) <-> exists p, In p (pending st) /\ e_seq p = s /\ e_end p = 0.
+Proof. exact thm_received_exact_all. Qed.
+Print Assumptions C08_seqbuf_received_exact_all_feeds.
+
+(* ... because in every state the loop can be in (any number of iterations after any operation list) a buffered
+   single sequence is at or above nextSequence: that branch only ever drops unused ranges *)
+Theorem C08_seqbuf_singles_never_stale : forall i m ops k,
+  let st := add_pending_loop k (run (init i m) ops) in
+  forall p, In p (pending st) -> e_end p = 0 -> next st <= e_seq p.
+Proof. exact thm_singles_never_stale. Qed.
+Print Assumptions C08_seqbuf_singles_never_stale.
+
+(* Observation (b) -- container/heap's order among equal start sequences.  On a consistent feed pending entries
+   that share a start sequence are copies of ONE unused-range event (same kind, same end), and a single
+   sequence shares its start with nothing: the order cannot matter.  (On an inconsistent feed it does:
+   C08_Refuted.tie_order_matters.) *)
+Theorem C08_seqbuf_pending_ties_identical : forall i m ops, feed_consistent ops -> ops_wf i ops ->
+  let st := run (init i m) ops in
+  forall p q, In p (pending st) -> In q (pending st) -> e_seq p = e_seq q ->
+    e_kind p = e_kind q /\ e_end p = e_end q /\ (e_end p = 0 -> NoDup (map e_seq (filter single (pending st)))).
+Proof. exact thm_pending_ties. Qed.
+Print Assumptions C08_seqbuf_pending_ties_identical.
+
+(* once a sequence number has arrived, any further arrival of it -- any kind, any age -- changes nothing, on
+   EVERY feed (what makes recent_sequences harmless) *)
+Theorem C08_seqbuf_arrival_idempotent : forall i m ops o s k a,
+  In o ops -> arr_seq o = Some s ->
+  step (run (init i m) ops) (Arrive k s a) = run (init i m) ops.
+Proof. exact arrive_again_noop. Qed.
+Print Assumptions C08_seqbuf_arrival_idempotent.
+
+(* DocChanged (one nextSequence snapshot, WasSkipped looked up per recent sequence, Skipped flag preset) does to
+   the buffer exactly what the state-independent expansion of the event does, for every feed of documents,
+   principals and raw operations: the snapshot / skipped-list filter only saves calls that would be ignored.
+   Hence every theorem above about [run] holds for feeds of documents [drun]. *)
+Theorem C08_docfeed_doc_changed_is_expansion : forall i m items,
+  drun (init i m) items = run (init i m) (expand_all i items).
+Proof. exact drun_expand. Qed.
+Print Assumptions C08_docfeed_doc_changed_is_expansion.
+
+(* ... in particular, for EVERY feed of documents: nothing is forwarded twice, the high-water mark only crosses
+   settled sequences *)
+Theorem C08_docfeed_at_most_once : forall i m items, NoDup (map d_seq (delivered (drun (init i m) items))).
+Proof. exact thm_doc_at_most_once. Qed.
+Print Assumptions C08_docfeed_at_most_once.
+
+Theorem C08_docfeed_hwm_contiguous : forall i m items, let st := drun (init i m) items in
+  i < next st /\
+  forall s, i < s -> s < next st ->
+    covered (expand_all i items) s \/ sk_mem s (skipped st) = true \/ sk_mem s (abandoned st) = true.
+Proof. exact thm_doc_hwm. Qed.
+Print Assumptions C08_docfeed_hwm_contiguous.
+
+(* arrivals after the first one of a sequence number can be deleted from a feed without changing anything *)
+Theorem C08_docfeed_duplicates_removable : forall i m ops, run (init i m) (canon ops) = run (init i m) ops.
+Proof. exact run_canon. Qed.
+Print Assumptions C08_docfeed_duplicates_removable.
+
+(* expand_preserves_consistency: when the documents carry sequences as the allocator guarantees ([docs_consistent]:
+   what events say on their own account is unique -- unused lists disjoint from used numbers --, a recent
+   sequence is an earlier revision of the same document: delivered earlier on the ordered per-vbucket feed, or
+   deduplicated and claimed by nothing else; raw ranges well-formed), the expanded feed with repeated arrivals
+   removed is feed_consistent and ops_wf, reaches the same state and covers the same sequences *)
+Theorem C08_docfeed_expand_preserves_consistency : forall i m items, docs_consistent i items ->
+  let ops := canon (expand_all i items) in
+  feed_consistent ops /\ ops_wf i ops
+  /\ drun (init i m) items = run (init i m) ops
+  /\ (forall s, covered ops s <-> covered (expand_all i items) s).
+Proof.
+  intros i m items D ops. destruct (thm_expand_consistent _ _ D) as [C W].
+  repeat split; try assumption.
+  - unfold ops. rewrite run_canon. apply drun_expand.
+  - apply covered_canon.
+  - apply covered_canon.
+Qed.
+Print Assumptions C08_docfeed_expand_preserves_consistency.
+
+(* ... so the consistent-feed theorems hold for feeds of real documents: every document delivered on the feed is
+   forwarded to the channel cache (exactly once, by C08_docfeed_at_most_once), or still buffered, or its sequence
+   had been abandoned before it turned up ... *)
+Theorem C08_docfeed_documents_not_lost : forall i m items seq unused recent removed aged,
+  docs_consistent i items -> In (FDoc seq unused recent removed aged) items -> i < seq ->
+  let st := drun (init i m) items in
+  delivered_ev st KDoc seq \/ pending_ev st KDoc seq \/ sk_mem seq (abandoned st) = true.
+Proof. exact thm_doc_not_lost. Qed.
+Print Assumptions C08_docfeed_documents_not_lost.
+
+(* ... and the skipped set is exactly the set of sequences below the high-water mark that no document, unused
+   list, recent list, principal or unused-sequence document has accounted for (and that were not abandoned) *)
+Theorem C08_docfeed_skipped_exact : forall i m items, docs_consistent i items ->
+  let st := drun (init i m) items in
+  forall s, sk_mem s (skipped st) = true <->
+            (i < s /\ s < next st /\ ~ covered (expand_all i items) s /\ sk_mem s (abandoned st) = false).
+Proof. exact thm_doc_skipped_exact. Qed.
+Print Assumptions C08_docfeed_skipped_exact.
+
+(* the hypothesis is satisfiable by a non-trivial feed: document A written at 11, 12 (deduplicated away), 14 with
+   unused sequence 13 and a channel removal at 12; a principal at 15; document B at 17 delivered before A's
+   update and aged (12..16 skipped, then 15, 13, 12, 14 arrive late -- 12 only through recent_sequences, flag
+   preset); an unused range; partial abandonment of the skipped list (18 and 21 go, 16 stays); a re-delivery *)
+Definition ex_items : list ditem :=
+  [FDoc 11 [] [11] [] false; FDoc 17 [] [17] [] true; FOp Housekeep; FPrinc 15 false;
+   FDoc 14 [13] [11; 12; 14] [12] false; FOp (ArriveRange 19 20 true); FDoc 22 [] [22] [] true; FOp Housekeep;
+   FOp (AbandonSome [false; true; true]); FDoc 14 [13] [11; 12; 14] [12] false].
+
+Example C08_docfeed_nonvacuous :
+  docs_consistent 10 ex_items /\
+  let st := drun (init 10 100) ex_items in
+  next st = 22 + 1 /\ skipped st = [(16, 16)] /\ abandoned st = [(18, 18); (21, 21)]
+  /\ map d_seq (delivered st) = [22; 19; 14; 12; 13; 15; 17; 11].
+Proof. split; [apply docs_consistent_b_sound; vm_compute; reflexivity | vm_compute; repeat split]. Qed.
